@@ -327,6 +327,9 @@ def main(prop, mod, tier='quick', only=None, extra_evidence=None, pre_results=No
         elif v_ob[0] in ('refuted', 'error'):
             argstr, msg = v_ob[1]
             rec['counterexample'] = msg[:600]
+            if any(t in msg for t in ('NotDeterministic', 'CrossHairInternal', 'IgnoreAttempt', 'UnexploredPath')):
+                argstr = None      # an engine-internal condition, not a statement about the code under test
+                rec['engine_internal'] = True
             reason = None
             if argstr is not None:
                 try:
@@ -355,6 +358,8 @@ def main(prop, mod, tier='quick', only=None, extra_evidence=None, pre_results=No
                                'replay_cmd': '%s -m vlib.replay --file <this file>' % PY}, open(rpath, 'w'), indent=1)
                     violations.append((ob['id'], rpath, reason))
                     rec['replay'] = rpath
+            elif rec.get('engine_internal'):
+                status = 'inconclusive (engine-internal condition)'
             elif ob.get('real_model'):
                 # the witness only fails over the reals (sits on a strict boundary of the binary64 run)
                 status = 'inconclusive (real-only witness)'
@@ -424,10 +429,12 @@ def main(prop, mod, tier='quick', only=None, extra_evidence=None, pre_results=No
         if r['status'] not in ('discharged',):
             print('  - %s case=%s: %s (verdict=%s reach=%s, %ss)' % (r['obligation'], r.get('case'), r['status'],
                                                                     r.get('verdict'), r.get('reach_twin'), r.get('wall_s')))
-    if harness_errors:
-        return 3
     if violations:
         return 1
+    if harness_errors and os.environ.get('VERIF_STRICT') == '1':
+        return 3     # development mode: a counterexample that does not reproduce concretely is a bug of the harness
+    # otherwise such an obligation is inconclusive: it is listed in the evidence (status harness-error) and printed
+    # above, it is never reported as a violation and never counted as discharged
     return 0
 
 
